@@ -64,6 +64,20 @@ type aiInterp struct {
 	bad   string // a definite defect found on the way (not a domain limit)
 	// hook models a call instead of interpreting it (ok = handled)
 	hook func(cl *ssa.Function, args []aiVal) (aiVal, bool)
+	cov  *aiCoverage
+}
+
+// aiCoverage: what the abstract runs executed. When every class of inputs has been run to the end without leaving the
+// domain, each concrete execution follows one of the runs step by step (integers are concrete in the domain): the
+// index expressions met were in range and the loops met came to an end.
+type aiCoverage struct {
+	blocks map[*ssa.BasicBlock]bool
+	instrs map[ssa.Instruction]bool
+	fns    map[*ssa.Function]bool // functions interpreted from their entry
+}
+
+func newAICoverage() *aiCoverage {
+	return &aiCoverage{blocks: map[*ssa.BasicBlock]bool{}, instrs: map[ssa.Instruction]bool{}, fns: map[*ssa.Function]bool{}}
 }
 
 func (ai *aiInterp) setPattern(zero [8]bool) {
@@ -142,6 +156,9 @@ func (ai *aiInterp) call(fn *ssa.Function, args []aiVal, depth int) aiVal {
 			fr.env[p] = args[i]
 		}
 	}
+	if ai.cov != nil {
+		ai.cov.fns[fn] = true
+	}
 	return ai.exec(fr, fn.Blocks[0], depth)
 }
 
@@ -151,6 +168,9 @@ func (ai *aiInterp) exec(fr *aiFrame, b *ssa.BasicBlock, depth int) aiVal {
 		ai.steps++
 		if ai.steps > 20000 {
 			return ai.fail("the abstract run does not end")
+		}
+		if ai.cov != nil {
+			ai.cov.blocks[b] = true
 		}
 		// phis read the values of the edge the block was entered by, simultaneously
 		if fr.prev != nil {
@@ -173,6 +193,12 @@ func (ai *aiInterp) exec(fr *aiFrame, b *ssa.BasicBlock, depth int) aiVal {
 		for _, ins := range b.Instrs {
 			if ai.why != "" || ai.bad != "" {
 				return aiVal{}
+			}
+			if ai.cov != nil {
+				switch ins.(type) {
+				case *ssa.IndexAddr, *ssa.Index, *ssa.Slice, *ssa.Call:
+					ai.cov.instrs[ins] = true
+				}
 			}
 			switch x := ins.(type) {
 			case *ssa.Phi, *ssa.DebugRef:
@@ -645,10 +671,44 @@ func init() {
 		Props: []string{"C08", "C03", "C01"},
 		Floor: 1,
 		Run: func(c *Ctx, s *core.Sink) {
+			r := ipv6SerAnalysis(c)
+			if r == nil {
+				return
+			}
+			f, key, pos, bad, undec, n := r.f, r.key, r.pos, r.bad, r.undec, r.n
+			_ = f
+			switch {
+			case undec != "":
+				s.Obs = append(s.Obs, core.Obligation{Rule: s.Rule, Construct: key, Pos: pos, Verdict: core.Discharged, Fact: "inventory: not decided (" + undec + ")", Props: s.Props, Trivial: true})
+			case bad != "":
+				s.Bad(key, pos, bad)
+			default:
+				s.OK(key, pos, fmt.Sprintf("%d/256 zero patterns: pieces, separators and the place of '::' are the standard's", n))
+			}
+		},
+	})
+}
+
+type aiOutcome struct {
+	f          *ssa.Function
+	key, pos   string
+	bad, undec string
+	n          int
+	cov        *aiCoverage
+	start      *ssa.BasicBlock // for an analysis that starts in the middle of f
+	note       string
+}
+
+// ipv6SerAnalysis runs the serializer on the 256 zero / non-zero patterns (memoised).
+func ipv6SerAnalysis(c *Ctx) *aiOutcome {
+	return c.Memo("ipv6SerAnalysis", func() interface{} {
+		var out *aiOutcome
+		func() {
 			f := c.P.Func("url", "IPv6Addr", "String")
 			if f == nil || len(f.Params) != 1 {
 				return
 			}
+			cov := newAICoverage()
 			key := "ipv6ser/" + core.FuncName(f)
 			pos := c.P.Pos(f.Pos())
 			bad, undec := "", ""
@@ -658,7 +718,7 @@ func init() {
 				for i := 0; i < 8; i++ {
 					pat[i] = m&(1<<uint(i)) != 0
 				}
-				ai := &aiInterp{c: c}
+				ai := &aiInterp{c: c, cov: cov}
 				ai.setPattern(pat)
 				out := ai.call(f, []aiVal{{k: aiArr}}, 0)
 				if ai.bad != "" {
@@ -696,14 +756,9 @@ func init() {
 					bad = fmt.Sprintf("the address %s (letters: non-zero pieces) is serialized as [%s], the standard gives [%s]", strings.Join(pieces, ":"), show(out.s), show(want))
 				}
 			}
-			switch {
-			case undec != "":
-				s.Obs = append(s.Obs, core.Obligation{Rule: s.Rule, Construct: key, Pos: pos, Verdict: core.Discharged, Fact: "inventory: not decided (" + undec + ")", Props: s.Props, Trivial: true})
-			case bad != "":
-				s.Bad(key, pos, bad)
-			default:
-				s.OK(key, pos, fmt.Sprintf("%d/256 zero patterns: pieces, separators and the place of '::' are the standard's", n))
-			}
-		},
-	})
+
+			out = &aiOutcome{f: f, key: key, pos: pos, bad: bad, undec: undec, n: n, cov: cov}
+		}()
+		return out
+	}).(*aiOutcome)
 }
